@@ -261,6 +261,21 @@ func (p *c15) Run(i int) (res fw.Result) {
 			if s != ws || f != wf || b != v {
 				res.Fail("bool", key, fmt.Sprintf("%v coerces to (%q, %v, %v)", v, s, f, b), nil)
 			}
+		case gen.KindSlice, gen.KindMap, gen.NilableNum, gen.NilableBool:
+			// a nil slice, map or function of a type with methods is a value like any other: the method is there to
+			// be called (only a nil pointer has nothing to call it on)
+			st, isS := z.V.(stick.Stringer)
+			nu, isN := z.V.(stick.Number)
+			bo, isB := z.V.(stick.Boolean)
+			if isS && s != st.String() {
+				res.Fail("iface", key, fmt.Sprintf("%s: String() says %q, CoerceString %q", z.Label, st.String(), s), nil)
+			}
+			if isN && f != nu.Number() {
+				res.Fail("iface", key, fmt.Sprintf("%s: Number() says %v, CoerceNumber %v", z.Label, nu.Number(), f), nil)
+			}
+			if isB && b != bo.Boolean() {
+				res.Fail("iface", key, fmt.Sprintf("%s: Boolean() says %v, CoerceBool %v", z.Label, bo.Boolean(), b), nil)
+			}
 		case gen.ValStringer:
 			if s != v.S {
 				res.Fail("iface", key, fmt.Sprintf("Stringer %q coerces to string %q", v.S, s), nil)
@@ -389,6 +404,25 @@ func (p *c15) Run(i int) (res fw.Result) {
 					res.Fail("numeric-string", "c15:ns:"+s, fmt.Sprintf("CoerceNumber(%q) = %v, the string spells %v", s, got, f), nil)
 				}
 				res.Sigs = append(res.Sigs, s)
+			}
+		}
+		// digit strings around the sizes of the integer types (the number a string spells is the nearest float64,
+		// however many digits it has): 2^31, 2^32, 2^53, 2^63, 2^64, 10^19, 10^20, runs of nines and of zeros
+		if i == p.nZoo+p.nInts+p.nI16+p.nFl {
+			var ds []string
+			for _, b := range []string{"2147483647", "2147483648", "4294967295", "4294967296", "9007199254740992", "9007199254740993", "9223372036854775807", "9223372036854775808", "18446744073709551615", "18446744073709551616",
+				"18446744073709551617", "10000000000000000000", "99999999999999999999", "100000000000000000000", "184467440737095516150", "36893488147419103232"} {
+				ds = append(ds, b, "0"+b, "000"+b, b+"0", b+".0", "+"+b, "-"+b)
+			}
+			for n := 15; n <= 25; n++ {
+				ds = append(ds, strings.Repeat("9", n), "1"+strings.Repeat("0", n), strings.Repeat("0", n)+"7", strings.Repeat("1", n))
+			}
+			for _, s := range ds {
+				want, err := strconv.ParseFloat(s, 64)
+				res.Evals++
+				if got := stick.CoerceNumber(s); err != nil || got != want {
+					res.Fail("numeric-string", "c15:ns:"+s, fmt.Sprintf("CoerceNumber(%q) = %v, the string spells %v", s, got, want), nil)
+				}
 			}
 		}
 		res.AddClass("numeric-string-block")
